@@ -91,7 +91,9 @@ def run(name, props, tier="quick"):
     try:
         for p in props:
             t0 = time.time()
-            rc, out = sh([os.path.join(VERIF, "check"), p, "--tier", tier], cwd=VERIF, timeout=7200)
+            # SEED_VERIF: run the checks from a snapshot of /verif (so that /verif can be edited meanwhile)
+            vr = os.environ.get("SEED_VERIF", VERIF)
+            rc, out = sh([os.path.join(vr, "check"), p, "--tier", tier], cwd=vr, timeout=7200)
             lines = [l for l in out.splitlines() if l.startswith(("VIOLATION", "OK ", "KNOWN", "TOOL-ERROR", "  violation"))]
             res[p] = {"exit": rc, "tier": tier, "wall_s": round(time.time() - t0), "lines": lines[:8]}
             print(name, p, "exit", rc, "|", "; ".join(lines[:3])[:400])
